@@ -1,1 +1,7 @@
 """rv - conformance harness binding the TLA+ specification in /verif/spec to ropt."""
+import os
+
+# many small linear-algebra calls in 16 worker processes: BLAS threading only hurts
+for _v in ("OPENBLAS_NUM_THREADS", "OMP_NUM_THREADS", "MKL_NUM_THREADS"):
+    os.environ.setdefault(_v, "1")
+os.environ.setdefault("PYTHONHASHSEED", "0")
